@@ -1,5 +1,5 @@
 CONSTANTS
-  MCTrees <- MCTreesAll
+  MCTrees <- MCTreesQuick
   KeepFirstError = TRUE
   RecoverPerStage = TRUE
 SPECIFICATION MCSpec
